@@ -26,7 +26,9 @@ PosIn(H, I) == UNION {{PosOf(i, j) : j \in 1..Len(H[i].recs)} : i \in I}
 SnapBounds(H, T) == {t \in Bounds(H) \cup {T + 1} : t > T}
 ReachableFrom(H, T) == UNION {ReachableAt(H, t, Root) : t \in SnapBounds(H, T)}
 \* revisions that carry a state (a "zero" record is a deletion marker, not a revision)
-RevsOf(H) == UNION {{<<o, H[i].tid>> : o \in {o \in OidsOf(H) : Writes(H, i, o) /\ RecOf(H, i, o).op # "zero"}} : i \in 1..Len(H)}
+\* (nor is a back pointer that resolves to one: the undo of a deletion of an already deleted object)
+RevsOf(H) == UNION {{<<o, H[i].tid>> : o \in {o \in OidsOf(H) : Writes(H, i, o) /\ RecOf(H, i, o).op # "zero"
+                                                                   /\ DataAt(H, i, o) # Gone}} : i \in 1..Len(H)}
 SupersededAt(H, T, o, t) == \E i \in Idx(H, o) : H[i].tid > t /\ H[i].tid <= T
 StripDtxn(v) == [i \in 1..Len(v) |-> [tid |-> v[i].tid, status |-> v[i].status, meta |-> v[i].meta,
                                       recs |-> [j \in 1..Len(v[i].recs) |-> [oid |-> v[i].recs[j].oid, d |-> v[i].recs[j].d]]]]
@@ -42,15 +44,20 @@ WrittenAfter(H, T, o) == \E i \in Idx(H, o) : H[i].tid > T /\ RecOf(H, i, o).op 
 \* no such object - a deleted or un-created object, only "observable" through a dangling reference - the
 \* property does not constrain the answer; DESIGN.md notes on C07)
 SameAnswer(new, orig) == orig.k = "rev" => new = orig
-PackOK(H, H2, T) ==
-  /\ \A t \in SnapBounds(H, T) : \A o \in ReachableAt(H, t, Root) :
+\* every object that loads in a snapshot >= T, and is reachable there, loads identically (if protected)
+PackSnapshotsSame(H, H2, T) ==
+  \A t \in SnapBounds(H, T) : \A o \in ReachableAt(H, t, Root) :
         (o \in ReachableAt(H, T + 1, Root) \/ WrittenAfter(H, T, o)) => SameAnswer(LoadBefore(H2, o, t), LoadBefore(H, o, t))
-  \* every transaction after T is still listed with the same records and data
-  /\ TailFrom(H2, T) = TailFrom(H, T)
-  \* nothing is invented; only revisions superseded at T, or of objects unreachable at T, are removed
-  /\ RevsOf(H2) \subseteq RevsOf(H)
-  /\ \A r \in RevsOf(H) \ RevsOf(H2) :
+\* every transaction after T is still listed with the same records and data
+PackTailSame(H, H2, T) == TailFrom(H2, T) = TailFrom(H, T)
+\* nothing is invented
+PackInventsNothing(H, H2, T) == RevsOf(H2) \subseteq RevsOf(H)
+\* only revisions superseded at T, or of objects unreachable at T, are removed
+PackRemovesOnlyAllowed(H, H2, T) ==
+  \A r \in RevsOf(H) \ RevsOf(H2) :
         r[2] <= T /\ (SupersededAt(H, T, r[1], r[2]) \/ r[1] \notin ReachableAt(H, T + 1, Root))
+PackOK(H, H2, T) == PackSnapshotsSame(H, H2, T) /\ PackTailSame(H, H2, T) /\ PackInventsNothing(H, H2, T)
+                    /\ PackRemovesOnlyAllowed(H, H2, T)
 
 (* ---------------------- FileStorage packer ------------------------------ *)
 \* buildPackIndex: oid -> position of its record current at the pack time (a zero record removes the oid)
